@@ -13,7 +13,7 @@ RULE = ('E1: every scalar of the boundary alphabet S (every ladder boundary '
         'chains; key alphabet. A case is (position, value); non-trivial = '
         'everything but the integer 1 at top level.')
 BOUNDS = {'quick': {'tree_nodes': 5, 'chain_depth': 10, 'max_depth': 32},
-          'thorough': {'tree_nodes': 7, 'chain_depth': 14, 'max_depth': 32}}
+          'thorough': {'tree_nodes': 8, 'chain_depth': 14, 'max_depth': 32}}
 ASSUMPTIONS = ['interior values (other integers, strings, floats) are '
                'represented by boundary values and 32 seeded integers',
                'floats above the single-precision range are outside the '
